@@ -795,9 +795,15 @@ where
             } else {
                 self.dispatch_job(job);
             }
-            return Ok(());
+            if !self.curr_jobs.is_empty() || self.message_queue.is_empty() {
+                return Ok(());
+            }
+            // The worker did not take the job (it is shutting down and has not been replaced
+            // yet), so the job stays queued for the replacement: the queue limit applies to it
+            // like to any other queued job.
+        } else {
+            self.message_queue.push_back(job);
         }
-        self.message_queue.push_back(job);
 
         if let Some((limit, DiscardMode::Oldest)) = self.discard_settings.get_limit_and_mode() {
             // load-shed the OLDEST jobs
